@@ -12,6 +12,85 @@ Proof.
   apply Bool.negb_true_iff in H1. apply str_in_false in H1. exact H1.
 Qed.
 
+Lemma flt_eqb_eq a b : flt_eqb a b = true -> a = b.
+Proof.
+  destruct a, b; cbn; try discriminate; intros H; try reflexivity.
+  - apply Bool.eqb_prop in H. congruence.
+  - apply andb_prop in H. destruct H as [H1 H2]. apply Z.eqb_eq in H1. apply Z.eqb_eq in H2. congruence.
+Qed.
+Lemma dec_eqb_eq a b : dec_eqb a b = true -> a = b.
+Proof.
+  destruct a, b; cbn; try discriminate; intros H; try reflexivity.
+  - apply Bool.eqb_prop in H. congruence.
+  - apply andb_prop in H. destruct H as [H1 H3]. apply andb_prop in H1. destruct H1 as [H1 H2].
+    apply Bool.eqb_prop in H1. apply N.eqb_eq in H2. apply Z.eqb_eq in H3. congruence.
+Qed.
+
+Lemma ident_eq : forall a b, ident a b = true -> a = b.
+Proof.
+  fix IH 1.
+  assert (Hlst : forall xs ys,
+     (fix lst (xs ys : list pyval) {struct xs} : bool :=
+        match xs, ys with
+        | [], [] => true
+        | x :: xr, y :: yr => ident x y && lst xr yr
+        | _, _ => false
+        end) xs ys = true -> xs = ys).
+  { fix IHl 1. intros [|x xr] [|y yr]; try discriminate; [reflexivity|].
+    intros H. apply andb_prop in H. destruct H as [H1 H2]. f_equal; [apply IH; exact H1|apply IHl; exact H2]. }
+  assert (Hkvl : forall xs ys,
+     (fix kvl (xs ys : list (pyval * pyval)) {struct xs} : bool :=
+        match xs, ys with
+        | [], [] => true
+        | (k, v) :: xr, (k', v') :: yr => ident k k' && ident v v' && kvl xr yr
+        | _, _ => false
+        end) xs ys = true -> xs = ys).
+  { fix IHl 1. intros [|[k v] xr] [|[k' v'] yr]; try discriminate; [reflexivity|].
+    intros H. apply andb_prop in H. destruct H as [H1 H3]. apply andb_prop in H1. destruct H1 as [H1 H2].
+    f_equal; [f_equal; apply IH; assumption|apply IHl; exact H3]. }
+  assert (Hskvl : forall xs ys,
+     (fix skvl (xs ys : list (string * pyval)) {struct xs} : bool :=
+        match xs, ys with
+        | [], [] => true
+        | (k, v) :: xr, (k', v') :: yr => String.eqb k k' && ident v v' && skvl xr yr
+        | _, _ => false
+        end) xs ys = true -> xs = ys).
+  { fix IHl 1. intros [|[k v] xr] [|[k' v'] yr]; try discriminate; [reflexivity|].
+    intros H. apply andb_prop in H. destruct H as [H1 H3]. apply andb_prop in H1. destruct H1 as [H1 H2].
+    apply String.eqb_eq in H1. subst k'.
+    f_equal; [f_equal; apply IH; assumption|apply IHl; exact H3]. }
+  intros a b. destruct a, b; cbn [ident]; try discriminate; intros H; try reflexivity.
+  - apply Bool.eqb_prop in H. congruence.
+  - apply Z.eqb_eq in H. congruence.
+  - apply flt_eqb_eq in H. congruence.
+  - apply dec_eqb_eq in H. congruence.
+  - apply String.eqb_eq in H. congruence.
+  - apply String.eqb_eq in H. congruence.
+  - f_equal. apply Hlst. exact H.
+  - f_equal. apply Hlst. exact H.
+  - f_equal. apply Hlst. exact H.
+  - f_equal. apply Hlst. exact H.
+  - f_equal. apply Hkvl. exact H.
+  - apply andb_prop in H. destruct H as [H1 H2]. apply Nat.eqb_eq in H1. subst. f_equal. apply Hskvl. exact H2.
+  - apply andb_prop in H. destruct H as [H1 H2]. apply Nat.eqb_eq in H1. apply Nat.eqb_eq in H2. congruence.
+  - apply Nat.eqb_eq in H. congruence.
+  - apply Nat.eqb_eq in H. congruence.
+Qed.
+
+Definition coherent (C : cdecl) (data : sdata) : Prop :=
+  forall e1 e2 k, In e1 data -> In e2 data -> fst e1 <> fst e2 ->
+    get_field_key C (fst e1) = Some k -> get_field_key C (fst e2) = Some k ->
+    (py_eq (snd e1) (snd e2) = true -> snd e1 = snd e2) /\ py_eq (snd e1) (snd e1) = true.
+Lemma coherentb_coherent C data : coherentb C data = true -> coherent C data.
+Proof.
+  unfold coherentb. intros H e1 e2 k H1 H2 Hne Hk1 Hk2.
+  rewrite forallb_forall in H. specialize (H e1 H1). rewrite forallb_forall in H. specialize (H e2 H2).
+  rewrite Hk1, Hk2, seqb_refl in H. cbn [negb orb] in H.
+  apply Bool.orb_true_iff in H. destruct H as [H|H]; [apply seqb_eq in H; contradiction|].
+  apply andb_prop in H. destruct H as [Ha Hb]. split; [|exact Hb].
+  intros He. rewrite He in Ha. cbn in Ha. apply ident_eq. exact Ha.
+Qed.
+
 Record WF (C : cdecl) : Prop := {
   wf_keys : NoDup (map fst (c_fields C));
   wf_names : forall kf kf', In kf (c_fields C) -> In kf' (c_fields C) ->
